@@ -42,6 +42,15 @@ def anchor_map():
         d = json.loads(line)
         for f in d["anchors"]["files"]:
             m[f].append(d["id"])
+    # properties that depend on a file without naming it as an anchor (found by the first sweep: the RTU size
+    # table of C03 reads the message classes, C04's add-on models the control block and the other requests)
+    for f in list(m):
+        if f.endswith("_message.py") or f.endswith("device.py"):
+            for p in ("C03", "C04"):
+                if p not in m[f]:
+                    m[f].append(p)
+    if "C09" not in m["pymodbus/diag_message.py"]:
+        m["pymodbus/diag_message.py"].append("C09")
     return m
 
 
@@ -181,8 +190,12 @@ def main():
     ap.add_argument("--files", default="")
     ap.add_argument("--out", default="/tmp/mutsweep.jsonl")
     ap.add_argument("--list", action="store_true")
+    ap.add_argument("--skip-props", default="", help="comma list of properties not to run (e.g. checks being edited)")
     a = ap.parse_args()
     amap = anchor_map()
+    skipp = set(x for x in a.skip_props.split(",") if x)
+    for f in amap:
+        amap[f] = [p for p in amap[f] if p not in skipp]
     files = [f for f in (a.files.split(",") if a.files else sorted(amap)) if f]
     rnd = random.Random(a.seed)
     jobs = []
